@@ -142,13 +142,17 @@ pub const HOSTILE: [u8; 26] = [
 ];
 
 /// Tokens used for `TokenSubst` / `Insert`: every keyword and operator of the grammar plus boundary literals.
-pub const DICT: [&str; 86] = [
+pub const DICT: [&str; 104] = [
     "void", "char", "short", "int", "signed", "unsigned", "const", "inline", "interrupt", "bank1", "bank9", "superchip",
     "ramchip", "display", "aligned(256)", "reversed", "scattered(16,1)", "holeydma", "screencode", "nopagecross",
     "if", "else", "for", "while", "do", "switch", "case", "default", "break", "continue", "return", "goto", "asm",
     "strobe", "load", "store", "csleep", "sizeof", "X", "Y", "main", "0", "1", "255", "256", "-1", "65535", "65536",
     "99999999999", "0x", "0xffffffffff", "0777", "08", "'a'", "'\\n'", "''", "\"s\"", "\"\"", "(", ")", "{", "}", "[", "]",
     ";", ",", "=", "==", "+", "-", "*", "/", "<<", ">>", "<", ">=", "&", "&&", "|", "!", "~", "?", ":", "++", "+=", "#define",
+    // misplaced statements and operands (near-valid programs: statement in the wrong place, undeclared or
+    // prototype-only names, void value used, wrong arity)
+    "break;", "continue;", "return;", "return 1;", "goto nolabel;", "nolabel:", "case 1:", "default:", "undeclared_name",
+    "undeclared_fn()", "main()", "X = main();", ", 0", "[0]", "[Y]", "void proto_only();", "proto_only();", "if (X)",
 ];
 
 #[derive(Clone, Copy, Debug, PartialEq, Eq)]
